@@ -30,6 +30,14 @@ def call(fn, *a, **kw):
         return ('EXC:' + type(e).__name__, None)
 
 
+class SemVer(tuple):
+    """a tuple subclass (as a namedtuple is)"""
+
+
+class Label(str):
+    """a str subclass"""
+
+
 def run(ctx):
     from oslo_utils import versionutils as vu
     from vf import purity
@@ -57,6 +65,9 @@ def run(ctx):
             text = '.'.join(str(d) for d in digits)
             suffix = '' if c['suffix'] == 'none' else c['suffix']
             arg = tuple(digits) if c['form'] == 'tuple' else text + suffix
+            if n % 4 == 3:
+                # a named tuple is a tuple and a str subclass instance is a str
+                arg = SemVer(arg) if isinstance(arg, tuple) else Label(arg)
             got = call(vu.convert_version_to_int, arg)
             n += 1
             if got != ('ok', want_int):
